@@ -22,12 +22,13 @@ func init() {
 	voNoMeta.Profile = vo.Profile.With(kv.KSetMeta, 0, kv.KDelMeta, 0)
 	sup.Register(&sup.Check{
 		Prop: "C12", Level: "exploration",
-		Rule: "engine A histories through every write entry point (deletes, resurrections, xattr-only writes, purges, WithMeta writes with CAS above / below / far above the clock or just above the document's own CAS, collection drop; a high-water-mark probe writes elsewhere, refreshes the index and then delivers a replicated version of the collection's newest document) with view queries placed at PRNG-chosen points; four map functions have native Go twins evaluated over a KV read-back of every key, sorted with sg-bucket's JSONCollator then by id, parameters (key, range, inclusive_end, limit, descending, reduce _count/_sum, group, group_level) applied by an independent implementation; a freshly created identical view (full rebuild) must return the same rows as the incrementally maintained one; design documents are replaced mid-history (another map function under the same name, or only other reduce functions); stale=ok / updateAfter queries are perturbations only; (concurrent, also under the race detector) writers, view queries (non-stale / ok / updateAfter) and design-document replacements and deletions through 1-2 handles; at quiescence a non-stale query through every handle must return the rows of the final documents; each spelling of 'not stale' (absent, false, \"false\") takes its turn as the first query after a batch of writes; emitted string keys with mixed case and punctuation; cell = (view, parameter shape, index age, bucket type)",
+		Rule: "engine A histories through every write entry point (deletes, resurrections, xattr-only writes, purges, WithMeta writes with CAS above / below / far above the clock or just above the document's own CAS, collection drop; a high-water-mark probe writes elsewhere, refreshes the index and then delivers a replicated version of the collection's newest document) with view queries placed at PRNG-chosen points; four map functions have native Go twins evaluated over a KV read-back of every key, sorted with sg-bucket's JSONCollator then by id, parameters (key, range, inclusive_end, limit, descending, reduce _count/_sum, group, group_level) applied by an independent implementation; a freshly created identical view (full rebuild) must return the same rows as the incrementally maintained one; design documents are replaced mid-history (another map function under the same name, or only other reduce functions); stale=ok / updateAfter queries are perturbations only; (concurrent, also under the race detector) writers, view queries (non-stale / ok / updateAfter) and design-document replacements and deletions through 1-2 handles; at quiescence a non-stale query through every handle must return the rows of the final documents; each spelling of 'not stale' (absent, false, \"false\") takes its turn as the first query after a batch of writes; emitted string keys with mixed case and punctuation; cell = (view, parameter shape, index age, bucket type); (WithMeta at the high-water mark, model-free) SetWithMeta / DeleteWithMeta with a CAS equal to, just below and above the collection's newest CAS, index up to date before each: rows of a view emitting every document = keys Exists reports",
 		Assumptions: []string{"map functions are a fixed family of four (plus one replacement); the JS engine (otto) and sg-bucket's collator/reduce are trusted dependencies", "limit is not combined with reduce; the `keys` list parameter is not judged (sg-bucket returns one row per listed key); a view is not judged by the twin oracle while it emits an object-valued key (sg-bucket's Collate and CollateRaw order JSON objects differently)", "bodies flagged JSON are valid JSON objects/numbers; JSON-looking bytes are not written through raw entry points in this profile"},
 		Parts: []sup.Part{viewPart("views-random", 500, 8000, voNoMeta), viewPart("views-withmeta", 300, 5000, vo),
 			{Name: "views-concurrent", Timeout: 90 * time.Second, Count: func(t string) int { return tierN(t, 120, 2400) }, Run: func(c *sup.Ctx) {
 				viewsConcurrentScenario(c, rng.New(c.Seed, rng.HashString("C12conc"), uint64(c.Local)))
 			}},
+			{Name: "withmeta-at-the-high-water-mark", Timeout: 60 * time.Second, Count: func(t string) int { return tierN(t, 60, 1200) }, Run: withMetaAtHighWaterMarkScenario},
 			{Name: "views-concurrent-race", Race: true, Timeout: 180 * time.Second, Count: func(t string) int { return tierN(t, 24, 240) }, Run: func(c *sup.Ctx) {
 				viewsConcurrentScenario(c, rng.New(c.Seed, rng.HashString("C12concrace"), uint64(c.Local)))
 			}},
@@ -49,11 +50,12 @@ func init() {
 	qo.Keys = []string{"k0", "k1", "k2", "k12", "e1", "K1", "E12"}
 	sup.Register(&sup.Check{
 		Prop: "C19", Level: "exploration",
-		Rule: "engine A histories over three collections sharing key names; at PRNG-chosen points a family of eleven SQLite queries over $_keyspace (exact id/hex(body)/xattr values of every row, LIKE with a named parameter, ORDER BY .. LIMIT, a statement mentioning $_keyspace twice, comparisons on body->>'n', body->>'t', xattrs->'_sync'->>'seq', `xattrs IS NULL`, the raw xattrs column, rows whose first or middle columns are SQL NULL) is executed through Next and NextBytes on in-memory (pre-recorded iterator) and on-disk (streaming iterator) buckets and compared with the same predicate evaluated natively over the KV read-back of that collection; (short bodies) JSON documents of 6-9 bytes, which SQLite could take for its binary JSONB; (raw bodies) a body-property query over a collection holding a non-JSON body must fail or be complete; (stale DataStore) after another handle dropped a collection (and created another one), a query through the DataStore still held for the dropped collection must return no rows, on in-memory and on-disk buckets alike; query cases with a literal % / modulo operator in the statement text and with column aliases containing a quote, a backslash, a tab and a newline; xattr values include bare numbers; (real time) a document past its expiry time but not yet tombstoned keeps its row whenever Exists reports it right before and after the query; LIKE judged case-insensitively over ids in both cases; numeric arguments handed over as several Go integer types; cell = (query, number of live docs, tombstones present, bucket type)",
+		Rule: "engine A histories over three collections sharing key names; at PRNG-chosen points a family of eleven SQLite queries over $_keyspace (exact id/hex(body)/xattr values of every row, LIKE with a named parameter, ORDER BY .. LIMIT, a statement mentioning $_keyspace twice, comparisons on body->>'n', body->>'t', xattrs->'_sync'->>'seq', `xattrs IS NULL`, the raw xattrs column, rows whose first or middle columns are SQL NULL) is executed through Next and NextBytes on in-memory (pre-recorded iterator) and on-disk (streaming iterator) buckets and compared with the same predicate evaluated natively over the KV read-back of that collection; (short bodies) JSON documents of 6-9 bytes, which SQLite could take for its binary JSONB; (raw bodies) a body-property query over a collection holding a non-JSON body must fail or be complete; (stale DataStore) after another handle dropped a collection (and created another one), a query through the DataStore still held for the dropped collection must return no rows, on in-memory and on-disk buckets alike; query cases with a literal % / modulo operator in the statement text and with column aliases containing a quote, a backslash, a tab and a newline; xattr values include bare numbers; (real time) a document past its expiry time but not yet tombstoned keeps its row whenever Exists reports it right before and after the query; LIKE judged case-insensitively over ids in both cases; numeric arguments handed over as several Go integer types; (rows without a body, model-free) after raw writes with a nil body the ids a query returns must be exactly the keys Exists / GetRaw report; cell = (query, number of live docs, tombstones present, bucket type)",
 		Assumptions: []string{"the query family is fixed; SQLite's own expression semantics are trusted", "queries over body properties are issued only while every live document of the collection holds valid JSON (a raw body makes SQLite's JSON operators fail for the whole statement)"},
 		Parts: []sup.Part{queryPart("queries-random", 1500, 25000, qo, false), queryPart("queries-json-only", 1000, 15000, qo, true),
 			{Name: "stale-handle-after-drop", Timeout: 60 * time.Second, Count: func(t string) int { return tierN(t, 120, 2400) }, Run: staleHandleScenario},
-			{Name: "documents-about-to-expire", Timeout: 60 * time.Second, Count: func(t string) int { return tierN(t, 8, 64) }, Run: expiringInQueriesScenario}},
+			{Name: "documents-about-to-expire", Timeout: 60 * time.Second, Count: func(t string) int { return tierN(t, 8, 64) }, Run: expiringInQueriesScenario},
+			{Name: "rows-without-a-body", Timeout: 60 * time.Second, Count: func(t string) int { return tierN(t, 60, 1200) }, Run: bodylessRowsScenario}},
 		Floor: func(tier string, m *sup.Merged) string {
 			if m.Counts["queries_judged"] < 2000 {
 				return "fewer than 2000 judged queries"
